@@ -166,6 +166,16 @@ check("C11", "TLC model checking of Cache.tla (heap with aliased list cells; Pur
       "Trusted: TLC; the mapping of model cells to real lists (tree.children, tree.children[k].children); lark's un-cached parser as the reference for "
       "the pristine structure.", "DESIGN.md 3.8, 5/C11")
 
+check("C18", "TLC: partition of the key numbers as ASSUMEs, union law / ordering / product size as invariants of Keys.tla + replay of the class table and of "
+      "every enumerated operand sequence through the real extraction and result generation",
+      "TLC checks the documented ranges over 0..2600 (partition, boundaries, class sizes) and, for every operand sequence up to 4 over a pool of boundary "
+      "keys, that extraction is once-per-category in ascending numeric order, that the extract of a composition is the union of the extracts, and "
+      "that the product has 3^m*2^n elements; the class of each of the 2601 numbers is compared with derive_condition_node_type, every sequence is "
+      "rendered as an expression and extracted by the real code (string and tree entry points, sum of extracts of two parts), and the generated "
+      "content evaluation results must be a duplicate-free list of valid combinations of exactly the product's size.",
+      "Trusted: TLC (SetToSortSeq from the CommunityModules). m = n = 0 is recorded, not judged (DESIGN 6.5). Package keys are compared as sets "
+      "(their order is not specified).", "DESIGN.md 3.11, 5/C18")
+
 NOT_BUILT = "check under construction in this session (specification module planned in DESIGN.md section 3); not claimed yet"
 
 
